@@ -51,6 +51,7 @@ func (w *Watchable[T]) Set(t T) {
 func (w *Watchable[T]) Value() (T, chan struct{}) {
 	inner := w.p.Load()
 	if inner == nil {
+		verifYield("Watchable.Value.nil")
 		// There's no inner, meaning w has not been Set() yet. Try filling it with an empty inner,
 		// so that we have a channel to listen on.
 		c := make(chan struct{})
